@@ -3,6 +3,8 @@ from __future__ import annotations
 
 import itertools
 
+import numpy as np
+
 import z3
 
 from spec import norms as nspec
@@ -12,7 +14,7 @@ from symfl.core import S, set_mode, sym_array, tf, same, ZB, elements, RFloat
 from symfl.install import install
 from symfl.replay import lit, replay_fn
 
-from .common import wf,  rvar, unit, is_nan
+from .common import wf,  rvar, unit, is_nan, is_val
 
 PROPERTY = "C10"
 EXPLANATION = ("Fuzzy outputs are enumerated as skeletons (0-4 activations over 1-3 distinct terms with repetitions; term kinds "
@@ -284,6 +286,59 @@ def ob_value(defuzz, explicit, kinds, skeleton, agg_name, batch=0, zero_at=None,
     return run
 
 
+def ob_fresh(defuzz, label):
+    """the value returned by defuzzify belongs to the caller (OutputVariable.defuzzify writes the default value INTO it): overwriting
+    one result in place must not show in the next result of the same object, of another object of the class, on an empty or a
+    non-empty fuzzy output"""
+    def run(ob):
+        fl = install()
+        set_mode("R")
+        c0, c1, w0, w1, q = rvar("c0"), rvar("c1"), rvar("w0_0"), rvar("w1_0"), rvar("q")
+        pre = [unit(w0), unit(w1), w0.v + w1.v > 0]
+        ins = {"c0": c0, "c1": c1, "w0_0": w0, "w1_0": w1, "q": q}
+
+        def rbody(v):
+            return "\n".join([f"c0, c1, w0, w1, q = {lit(v['c0'])}, {lit(v['c1'])}, {lit(v['w0_0'])}, {lit(v['w1_0'])}, {lit(v['q'])}",
+                              f"D = fl.{defuzz}()",
+                              "empty = fl.Aggregated('out', 0.0, 1.0, None, [])",
+                              "fo = fl.Aggregated('out', 0.0, 1.0, None, [fl.Activated(fl.Constant('a', c0), w0), fl.Activated(fl.Constant('b', c1), w1)])",
+                              "def spoil(r):",
+                              "    if isinstance(r, np.ndarray): r[...] = q",
+                              "with np.errstate(all='ignore'):",
+                              "    spoil(D.defuzzify(empty)); e2 = D.defuzzify(empty); e3 = type(D)().defuzzify(fl.Aggregated('other', 0.0, 1.0, None, []))",
+                              "    spoil(D.defuzzify(fo)); f2 = D.defuzzify(fo)",
+                              f"exp = (w0 * c0 + w1 * c1){' / (w0 + w1)' if defuzz == 'WeightedAverage' else ''}",
+                              "verdict(not (np.all(np.isnan(e2)) and np.all(np.isnan(e3)) and same(f2, exp, 1e-9)), 'after overwriting earlier results with %r: empty -> %r, other object -> %r, two constants -> %r (documented %r)' % (q, e2, e3, f2, exp))"])
+
+        rp = replay_fn(PROPERTY, label, rbody, key=None)
+
+        def spoil(r):
+            if isinstance(r, (np.ndarray, core.SymArray)):
+                r[...] = q
+
+        def body():
+            D = getattr(fl, defuzz)()
+            empty = fl.Aggregated("out", 0.0, 1.0, None, [])
+            fo = fl.Aggregated("out", 0.0, 1.0, None, [fl.Activated(fl.Constant("a", c0), w0), fl.Activated(fl.Constant("b", c1), w1)])
+            spoil(D.defuzzify(empty))
+            e2 = D.defuzzify(empty)
+            e3 = getattr(fl, defuzz)().defuzzify(fl.Aggregated("other", 0.0, 1.0, None, []))
+            spoil(D.defuzzify(fo))
+            return e2, e3, D.defuzzify(fo)
+
+        for p in ob.paths(pre, body):
+            if p.exc is not None:
+                ob.unexpected(pre, p, label, ins, rp)
+                continue
+            e2, e3, f2 = p.result
+            num = w0.v * c0.v + w1.v * c1.v
+            exp = num / (w0.v + w1.v) if defuzz == "WeightedAverage" else num
+            f2e = elements(f2)
+            ob.prove(pre, p, z3.And(is_nan(elements(e2)[0]), is_nan(elements(e3)[0]), len(f2e) == 1, is_val(f2e[0], exp)), label, ins, rp)
+
+    return run
+
+
 def ob_const_bounds(n, agg_name, label):
     """a weighted average of constants lies between the smallest and largest *activated* constant"""
 
@@ -417,6 +472,8 @@ def _obligations(tier, seed):
         add(d, "Automatic", ("Constant", "Ramp"), (0, 1), None)
         add(d, "Automatic", ("Triangle", "Ramp"), (0, 1), None)
         add(d, "Automatic", ("Constant", "Triangle"), (0, 1), None)
+    for d in defs:
+        obs.append((f"{d}/fresh-results", ob_fresh(d, f"{d}/fresh-results")))
     for n in (1, 2, 3):
         for agg in (None, "Maximum"):
             nm = f"constants-bounds/n{n}/{agg or 'none'}"
